@@ -245,6 +245,10 @@ def run(ck, F):
         ck.check(R2c, f['id'], not bad, f'{f["id"]}: ' + '; '.join(sorted(set(bad))), loc=f['loc'], fn=f['id'])
 
     insertion_order(ck, F, 'C17')
+    # a statement carries the location the client gave *it*: statement nodes are made afresh by every request (a unified statement
+    # would share one location among all its uses, and an unrelated request could rewrite what a unit prints)
+    import borrow as _borrow
+    _borrow.borrow(ck, F, 'C05', 'C17', {'make-is-fresh'})
 
     # ---------------------------------------------------------------- printer state / graph untouched
     R5 = ck.rule('C17.printer-state', 'the Printer constructor initialises every data member; printer functions never cast away '
